@@ -194,12 +194,13 @@ PROPS = {
     "C01": {"ready": True, "replay": c01_suite.replay, "suites": [lambda v, tier, seed: c01_suite.run(v, tier, seed)],
             "partial": "cross-process determinism of DefaultHasher/Pcg64 and the order of equal-depth start states are observed, not proved; "
                        "the theorems cover the hash-order independence of dump_events/snapshot and of crash_node"},
-    "C04": {"ready": True, "partial": PARTIAL_D1 + "; the end-to-end theorems (simulated run after the snapshot is covered by an Ok exploration) are sim_run_covered_partial (duplication and corruption rates zero, any drop rate) and sim_run_covered_fates (arbitrary rates, under FreshSendsFrom: when the network can duplicate or corrupt, no handler sends a message whose (message, sender, receiver) triple or that of its corruption is already in the air); both assume no crash/recover after the snapshot, exact time arithmetic (finding D16 is where f64 breaks it) and goal/prune only at states without pending events; with repeated identical messages under duplication/corruption, or crashes, the inclusion is checked on the implementation (simulated walks) only",
+    "C04": {"ready": True, "partial": PARTIAL_D1 + "; the end-to-end theorems (simulated run after the snapshot is covered by an Ok exploration) are sim_run_covered_partial (duplication and corruption rates zero, any drop rate) and sim_run_covered_fates (arbitrary rates, under FreshSendsFrom: when the network can duplicate or corrupt, no handler sends a message whose (message, sender, receiver) triple or that of its corruption is already in the air); both assume no crash/recover after the snapshot, exact time arithmetic (finding D16 is where f64 breaks it) and goal/prune only at states without pending events; finding D17 (an identical message in flight blocks the faults of a later identical one) shows that FreshSendsFrom is genuinely needed: the full statement fails there on the real code; with crashes the inclusion is checked on the implementation (simulated walks) only",
             "replay": sim_replay, "suites": [snapshot_check(walk=10, routes=False, fp=True)]},
     "C05": {"ready": True, "replay": auto_replay,
             "suites": [sim("sim_network", "C05", dict(p_fault=0.6, p_link=0.6, p_crash=0.3, nodes=(2, 3), procs=(2, 4)),
                            nontrivial=lambda st: st["received"] and (st["faults_on"] or st["links"]),
-                           extra=lambda rng, tier: [(f"lm{i}", sim_suite.gen_link_matrix(rng)) for i in range(300 if tier == "quick" else 6000)]),
+                           extra=lambda rng, tier: [(f"lm{i}", sim_suite.gen_link_matrix(rng)) for i in range(300 if tier == "quick" else 6000)] +
+                                                   [(f"dc{i}", sim_suite.gen_dup_corrupt(rng)) for i in range(60 if tier == "quick" else 1200)]),
                        mc("mc_links", dict(p_link=0.7, p_fault=0.2, nodes=(2, 3), procs=(2, 4), p_send=0.6, p_timer=0.1), refenum=True, n_quick=100, n_thorough=1500,
                           extra_gen=mc_checks.gen_mc_link_matrix, nontrivial=lambda st: st["multi_states"])]},
     "C06": {"ready": True, "replay": auto_replay,
@@ -222,7 +223,8 @@ PROPS = {
     "C19": {"ready": True, "replay": mc_checks.replay, "suites": [pred_check],
             "partial": "state_depth_current_run is proved only in its sound half (finding D11); time_limit (wall clock) is outside the model"},
     "C02": {"ready": True, "partial": PARTIAL_D1, "replay": mc_checks.replay,
-            "suites": [mc("mc_paths", dict(collect_always=True, depth=(2, 4), caches=("full", "disabled"), staged=0.35, staged3=0.6), refenum=True)]},
+            "suites": [mc("mc_paths", dict(collect_always=True, depth=(2, 4), caches=("full", "disabled"), staged=0.35, staged3=0.6), refenum=True,
+                          extra_gen=mc_checks.gen_order_sensitive)]},
     "C03": {"ready": True, "partial": PARTIAL_D1, "replay": auto_replay,
             "suites": [mc("mc_exhaustive", dict(depth=(2, 4), staged=0.25, p_link=0.3, p_fault=0.45, p_send=0.5), refenum=True, cross=mc_checks.COMBOS, n_quick=250, extra_gen=mc_checks.gen_staged_gate)]},
     "C07": {"ready": True, "partial": PARTIAL_D1, "replay": auto_replay,
